@@ -181,6 +181,8 @@ theorem runExisting_frozen (t : Task) (reset : Bool) (a : Nat) :
   unfold runExisting
   split
   · exact Frozen.refl t a
+  split
+  · exact Frozen.refl t a
   · intro r hr hc
     have hlt : a < t.actions.length := (List.getElem?_eq_some_iff.mp hr).1
     have hlt' : a < (resetActions reset t.actions).length := by simp [resetActions, hlt]
@@ -243,6 +245,8 @@ theorem step_ne_idle (t : Task) (d : Delivery) (h : t.state ≠ .idle) : (step t
     | false =>
       show (runExisting t reset).1.state ≠ .idle
       unfold runExisting
+      split
+      · exact h
       split
       · exact h
       · simp [scheduleAction]
@@ -364,6 +368,8 @@ theorem step_acceptInv (t : Task) (d : Delivery) (h : AcceptInv t) : AcceptInv (
     | false =>
       show AcceptInv (runExisting t reset).1
       unfold runExisting
+      split
+      · exact h
       split
       · exact h
       · apply scheduleAction_acceptInv
